@@ -240,6 +240,8 @@ def p_work(uid, markdir=None, steps=6, fail=False):
         x = 0
         for i in range(steps):
             x += i
+        if fail == 'twoarg':
+            raise TwoArgError(uid, 'reason')       # picklable, but cannot be rebuilt by the receiver
         if fail == 'onlyhere':
             return OnlyHere()       # a result the parent cannot rebuild
         if fail:
